@@ -982,8 +982,8 @@ def numeric_residual(eq, pairs, n_by_base=None, op=""):
         lv, rv = _nval(lhs), _nval(rhs)
         if any(math.isinf(abs(x)) for x in (lv, rv)):
             raise Unsupported("non-finite value (overflow) at this point")
-        # terms inside each side give the honest scale when a side is 0 (laws written as sum == 0)
-        scale = max(abs(lv), abs(rv), _term_scale(lhs), _term_scale(rhs), 1e-300)
+        # the terms of the law's own sides give the honest scale (a side that is a difference of huge terms, or 0)
+        scale = max(abs(lv), abs(rv), _term_scale(e.lhs, pairs), _term_scale(e.rhs, pairs), 1e-300)
         ok = abs(lv - rv) <= REL_TOL * scale
         return ok, lv, rv, f"lhs={lv!r} rhs={rv!r} |lhs-rhs|/scale={abs(lv - rv) / scale:.3e}"
     # abs / ceiling: result == op(solution of the law for the result symbol)
@@ -1022,13 +1022,15 @@ def _nval(x):
     return v.real if v.imag == 0 else v
 
 
-def _term_scale(x):
-    x = exact_constants(sp.sympify(x))
+def _term_scale(side, pairs):
+    """Largest magnitude among the additive terms of one side of the law, each evaluated on its own."""
     best = 0.0
-    for t in sp.Add.make_args(x):
+    for t in sp.Add.make_args(sp.expand(side) if side.is_Add else side):
         try:
-            best = max(best, abs(complex(sp.N(t, 20))))
-        except Exception:
+            v = abs(_nval(_subst(t, pairs)))
+            if not math.isinf(v):
+                best = max(best, v)
+        except Exception:  # noqa: BLE001
             pass
     return best
 
@@ -1169,6 +1171,7 @@ def symbolic_function(c: Contract, law_attr, eq, assoc, rng) -> tuple[str, list,
     if seqs:
         shapes = list(SEQ_LENGTHS)
     obs, rebound_all, axioms_all = [], [], []
+    float_only = []
     for shape in shapes:
         args, pairs, n_by_base = {}, [], {}
         for p in c.params:
@@ -1220,13 +1223,16 @@ def symbolic_function(c: Contract, law_attr, eq, assoc, rng) -> tuple[str, list,
             except Unsupported as u:
                 return "unreachable", [], f"unsupported: {u}", rebound_all, []
             except FloatOnly as u:
-                return "unreachable", [], str(u), rebound_all, []
+                float_only.append(str(u))  # this path: equality only to numerical precision; go on with the others
+                continue
             obs.append(ob)
         if returned == 0:
             return "unreachable", [], "every generic path raises (function refuses all symbolic inputs)", rebound_all, []
     verdicts = {o.verdict for o in obs}
     if REFUTED in verdicts:
         return "refuted", obs, "", rebound_all, axioms_all
+    if float_only:
+        return "unreachable", [], float_only[0], rebound_all, axioms_all
     if verdicts == {PROVED}:
         return "proved", obs, "", rebound_all, axioms_all
     if FAULT in verdicts:
@@ -1311,11 +1317,9 @@ def _discharge_path(c, law_attr, eq, pairs, n_by_base, val, cond, pname, args, r
                 ob1, m1, tr1 = ob0, m0, tr0
         final = (vname, ob0, ob1, m1, tr1, R, valc, H, pc)
     vname, ob0, ob1, m1, tr1, R, valc, H, pc = final
-    if _has_float(R, valc):
-        raise FloatOnly("machine floats: the residual does not vanish exactly with floats read as exact rationals "
-                        f"({ob1.verdict} by {ob1.backend}); equality to numerical precision is decided by the bounded stand-in")
     ob = ob1
     ob.ms = (time.time() - t_all) * 1000
+    floats = _has_float(R, valc)
     if ob.verdict == REFUTED:
         ob.detail += " | residual: " + str(R)[:300] + " | returned: " + str(valc)[:200]
         try:
@@ -1324,8 +1328,14 @@ def _discharge_path(c, law_attr, eq, pairs, n_by_base, val, cond, pname, args, r
         except _Timeout:
             ob.replay = {"reproduced": False, "script": None, "message": "search for a concrete input timed out"}
         if ob.replay.get("reproduced"):
+            # a real call of the decorated function violates the law beyond the numerical tolerance: genuine
             ob.detail += " | failing input: " + str(ob.replay.get("inputs"))
-        elif tr1 is not None and any(not isinstance(e, sp.Symbol) for e in tr1.atom_exprs.values()):
+            return ob
+        if floats:
+            raise FloatOnly("machine floats: the residual does not vanish exactly with floats read as exact rationals "
+                            f"(refuted by {ob.backend}, no failing input beyond {REL_TOL:g} relative found); equality to "
+                            "numerical precision is decided by the bounded stand-in")
+        if tr1 is not None and any(not isinstance(e, sp.Symbol) for e in tr1.atom_exprs.values()):
             # the countermodel assigns free values to uninterpreted terms (exp, log, symbolic powers, ...): it is only a
             # candidate; without a failing input reproduced on the real function this is NOT a refutation
             ob.verdict = UNKNOWN
@@ -1333,6 +1343,9 @@ def _discharge_path(c, law_attr, eq, pairs, n_by_base, val, cond, pname, args, r
                          + str(ob.replay.get("message", ""))[:120] + ") | " + ob.detail)[:600]
             ob.replay = None
         return ob
+    if floats:
+        raise FloatOnly("machine floats: the residual does not vanish exactly with floats read as exact rationals "
+                        f"({ob.verdict} by {ob.backend}); equality to numerical precision is decided by the bounded stand-in")
     ob.detail = (ob.detail + f" | D0: {ob0.verdict}")[:400]
     return ob
 
@@ -1406,7 +1419,7 @@ def _concretize(c: Contract, law_attr, eq, model, tr, args, cond, R, H, rng) -> 
                 if not _path_holds(cond, pt):
                     last = "candidate point is off the path"
                     continue
-                if _prescreen_small(R, pt):
+                if not c.op and _prescreen_small(R, pt):
                     last = "symbolic residual is ~0 at the candidate point"
                     continue
                 with _quiet():
